@@ -2,6 +2,7 @@ package c17
 
 import (
 	"bytes"
+	"encoding/binary"
 	"fmt"
 	"strings"
 	"unsafe"
@@ -10,6 +11,22 @@ import (
 )
 
 const guardLen = 32
+
+// expand is vk.Expand (same bytes for the same seed: splitmix64, little-endian words) writing a word at a time: the
+// arguments of the large size classes are hundreds of kilobytes per case.
+func expand(seed uint64, n int) []byte {
+	out := make([]byte, n+8)
+	x := seed
+	for i := 0; i < n; i += 8 {
+		x += 0x9e3779b97f4a7c15
+		z := x
+		z = (z ^ (z >> 30)) * 0xbf58476d1ce4e5b9
+		z = (z ^ (z >> 27)) * 0x94d049bb133111eb
+		z ^= z >> 31
+		binary.LittleEndian.PutUint64(out[i:], z)
+	}
+	return out[:n:n]
+}
 
 // part is one argument inside a region: the function under test receives
 // buf[off : off+n : capEnd].
@@ -47,7 +64,7 @@ type arena struct {
 }
 
 func (a *arena) canary(name string, n int) []byte {
-	return vk.Expand(a.seed^vk.FP("canary", name, len(a.regs)), n)
+	return expand(a.seed^vk.FP("canary", name, len(a.regs)), n)
 }
 
 // cut makes the argument called name with the given content and spare capacity, in a region of its own.
